@@ -47,13 +47,18 @@
      C03_stale_histories2_example: non-vacuity (tiny tables: build /a/b/c, remove /a/b, duplicate the model).
      C03_stale_every_world: the requests that do not ask for min_version alone (all place-dependent ones except
        create_sub_element(_at), set_attribute, get_or_create_sub_element) fail through a detached handle in EVERY world,
-       so also after loads and inside the known classes; what stays open across OpLoad is DF for these four. *)
+       so also after loads and inside the known classes; what stays open across OpLoad is DF for these four.
+     C03_stale_live: in EVERY world with Core, whatever is requested through a handle of a detached element (also the
+       four requests above, which may succeed when DetFiles fails), models, files and all live nodes stay as they were.
+     C03_stale_live_histories2: hence along every op2 history from the empty world, loads and all other known classes
+       included, outside Known_load_shared: stale handles cannot change the live model, and all place-dependent
+       requests except the four fail without any change. *)
 From AV Require Import Base.Bytes Base.Outcome Hash.HashModel Tree.Heap Tree.Ops Tree.Script Tree.Inv Tree.Iter
   Tree.InvProofsTree Tree.InvProofsNav Tree.InvProofs Tree.StaleProofs Tree.IterProofs Tree.IterProofsFile
   Tree.InvProofsDetFiles Tree.InvProofsDetFilesMain Tree.InvProofsOp2 Tree.InvExamples
   Tree.InvProofsChars Tree.InvProofsChars5 Tree.InvProofsOrigins3 Tree.InvProofsReal Tree.InvProofsRealTables Spec.SpecReal.
 From AV Require Import Tree.Script2 Tree.InvLoad Tree.InvProofsOp2Full Tree.InvProofsLoadExamples Tree.InvProofsOp2Lift
-  Tree.InvProofsOp2Real Tree.InvEBase Tree.InvProofsLoadLive Tree.InvProofsOp2Live Tree.InvProofsOp2Rej Tree.InvE_Main Tree.InvL_Base Tree.InvL_Main Tree.InvL_Op2 Tree.InvProofsStale2 Tree.InvProofsStale2Examples.
+  Tree.InvProofsOp2Real Tree.InvEBase Tree.InvProofsLoadLive Tree.InvProofsOp2Live Tree.InvProofsOp2Rej Tree.InvE_Main Tree.InvL_Base Tree.InvL_Main Tree.InvL_Op2 Tree.InvProofsStale2 Tree.InvProofsStale2Examples Tree.InvProofsStale3.
 From AV Require Xml.TablesOk.
 From AV Require Tree.Load Tree.MergeSpec Tree.LoadProofsRefuted.
 Open Scope string_scope.
@@ -618,6 +623,27 @@ Theorem C03_stale_histories2_example :
   (principal (OpCreateNamed 5 Tiny.PKG Tiny.na) = Some 5 /\ place_dependent (OpCreateNamed 5 Tiny.PKG Tiny.na) = true /\
    exists e, Inv.run Tiny.T0 Tiny.nt0 Tiny.nt0 Tiny.chk0 1 [] (OpCreateNamed 5 Tiny.PKG Tiny.na) Tiny2.wD = Val (ER e, Tiny2.wD)).
 Proof. exact Tiny2.wD_example. Qed.
+
+Theorem C03_stale_live :
+  forall (T : tables) (tab_el tab_en : nametab) (check_fn : N -> list N -> res bool) (LATEST : N)
+         (root_attrs : list (N * cdata)) (o : op) (h : id) (w : world) (r : out value) (w' : world),
+    Core w -> Detached w h -> principal o = Some h ->
+    Inv.run T tab_el tab_en check_fn LATEST root_attrs o w = Val (r, w') -> live_eq w w'.
+Proof. exact stale_live. Qed.
+
+Theorem C03_stale_live_histories2 :
+  forall (T : tables) (tab_el tab_at tab_en : nametab) (check_fn : N -> list N -> res bool)
+         (float_parse : list N -> option N) (float_fmt : N -> list N)
+         (LATEST name_index name_definition_ref attr_schema_location : N) (root_attrs : list (N * cdata))
+         (l : list op2) (w : world) (o : op) (h : id) (r : out value) (w' : world),
+    run_ops2 T tab_el tab_at tab_en check_fn float_parse float_fmt LATEST name_index name_definition_ref
+      attr_schema_location root_attrs l empty_world = Val w ->
+    clean_shared_ops2 T tab_el tab_at tab_en check_fn float_parse float_fmt LATEST name_index
+      name_definition_ref attr_schema_location root_attrs l empty_world = true ->
+    Detached w h -> principal o = Some h ->
+    Inv.run T tab_el tab_en check_fn LATEST root_attrs o w = Val (r, w') ->
+    live_eq w w' /\ (place_dependent o = true -> needs_version_only o = false -> w' = w /\ failed r).
+Proof. exact stale_live_histories2. Qed.
 
 (* ---------- the finding: an error after the point of no return leaves an orphan ---------- *)
 Theorem C03_failed_reparent_refuted :
